@@ -33,7 +33,11 @@ ASSUMPTIONS = ["a transmission may leave up to SEND_COLLECTION_TIMEOUT after it 
 FLOORS = {"quick": {"scenarios": 6000, "offers_matched": 30000, "stopoffers_matched": 3000, "find_answers_matched": 1500,
                     "queue_log_entries": 40000, "stops_at_instant_before": 300, "stops_at_instant_after": 300,
                     "stops_adjacent": 600, "stop_inside_answer_window": 150, "double_stop_calls": 300,
-                    "simple_service_stop_announce": 100, "stop_before_first_offer": 150, "restart_scenarios": 400}}
+                    "simple_service_stop_announce": 100, "stop_before_first_offer": 150, "restart_scenarios": 400,
+                    "mesh_scenarios": 100, "mesh_offer_intervals_checked": 200, "mesh_stopped_intervals_checked": 40}}
+# system-level shards: the mesh workload of pv/mesh.py under this property's boundary monitors (reports of other monitors are dropped)
+MESH = {"want": ("offerlife",), "claim": ("mesh:offer-with-nonzero-ttl-queued-while", "mesh:stop-after-offering-queues", "mesh:stop-queues"),
+        "quick": (2, 60), "thorough": (16, 1500)}
 
 FOREVER = 0xFFFFFF
 PEER = ("10.0.7.9", 30490)
